@@ -77,6 +77,8 @@ class ScriptRunner:
         self.paths, self.handles, self.ctls = {}, {}, {}
         self.syms = {}        # $name -> S (bytes) or BV/int
         self.outsyms = []     # symbolic byte strings referenced by {k} in output lines
+        self.aw = None        # AsyncWorld, created on first `fs X amem|aalt|aovl`
+        self.async_vars = set()
         self.log = []         # (script line, output string)
         self.last = None      # raw Outcome of the last operation
 
@@ -168,8 +170,34 @@ class ScriptRunner:
             out.append('%d %s' % (i + 1, r))
         return out
 
+    def is_async(self, t):
+        if t[0] == 'fs':
+            return t[2] in ('amem', 'aalt', 'aovl')
+        if t[0] in ('join', 'parent', 'root'):
+            return t[2] in self.async_vars
+        if t[0] in ('hwrite', 'hflush', 'hseek', 'hread', 'hdrop', 'wnext', 'wdrop'):
+            return t[1] in self.async_vars
+        if t[0] in ('hopen', 'wopen'):
+            return t[2] in self.async_vars
+        return len(t) > 1 and t[1] in self.async_vars
+
     def exec(self, t):
-        w, ex, P = self.w, self.ex, self.paths
+        if self.is_async(t):
+            if self.aw is None:
+                from .aapi import AsyncWorld
+                self.aw = AsyncWorld(self.ex)
+            w = self.aw
+            if t[0] == 'fs':
+                self.async_vars.add(t[1])
+                t = [t[0], t[1], {'amem': 'mem', 'aalt': 'alt', 'aovl': 'ovl'}[t[2]]] + t[3:]
+            elif t[0] in ('join', 'parent', 'root', 'hopen', 'wopen'):
+                self.async_vars.add(t[1])
+        else:
+            w = self.w
+        return self.exec_with(w, t)
+
+    def exec_with(self, w, t):
+        ex, P = self.ex, self.paths
         op = t[0]
         self.last = None
         if op == 'fs':
@@ -233,7 +261,8 @@ class ScriptRunner:
                 o.value = ex.branch(o.value)
             return 'ok:' + boolv(ex, o.value) if o.ok else fmt_err(o)
         if op == 'eq':
-            o = self.last = w.guard(lambda: w.F('<path::VfsPath as PartialEq>::eq', [ValRef(P[t[1]]), ValRef(P[t[2]])]))
+            eqfn = '<async_vfs::path::AsyncVfsPath as PartialEq>::eq' if w is self.aw else '<path::VfsPath as PartialEq>::eq'
+            o = self.last = w.guard(lambda: w.F(eqfn, [ValRef(P[t[1]]), ValRef(P[t[2]])]))
             if o.ok:
                 o.value = ex.branch(o.value)
             return 'ok:' + boolv(ex, o.value) if o.ok else fmt_err(o)
@@ -319,7 +348,10 @@ class ScriptRunner:
                 return fmt_err(o)
             h = o.value
             data = self.arg_bytes(t[2])
-            r = self.last = w.guard(lambda: models.call_model(ex, '<Box<dyn SeekAndWrite> as std::io::Write>::write_all', [ValRef(h), ValRef(data)]))
+            if w is self.aw:
+                r = self.last = w.write_all(h, data)
+            else:
+                r = self.last = w.guard(lambda: models.call_model(ex, '<Box<dyn SeekAndWrite> as std::io::Write>::write_all', [ValRef(h), ValRef(data)]))
             if not r.ok:
                 w.h_drop(h)
                 return fmt_err(r)
@@ -368,6 +400,41 @@ class ScriptRunner:
                     return 'ok:toolarge'
                 o.value = (k, buf)
             return 'ok:%d:%s' % (k, hx(conc(buf[:min(k, n)])))
+        if op == 'wopen':
+            o = self.last = w.call('walk_dir', P[t[2]])
+            if not o.ok:
+                return fmt_err(o)
+            self.handles[t[1]] = o.value
+            return 'ok'
+        if op == 'wnext':
+            it = self.handles[t[1]]
+
+            def nxt():
+                if w is self.aw:
+                    from mirsym import asyncrt
+                    cx = Ref([Adt('Context', None, [])], 0)
+                    for _ in range(400):
+                        r = asyncrt.stream_next(ex, it, cx)
+                        if r.variant == 'Ready':
+                            return r.fields[0]
+                    raise Bound('stream pending for more than 400 polls')
+                return models.iter_next(ex, it)
+            o = self.last = w.guard(nxt)
+            if not o.ok:
+                return fmt_err(o)
+            item = o.value
+            if item.variant == 'None':
+                o.value = None
+                return 'ok:none'
+            io_ = w.norm(item.fields[0])
+            self.last = io_
+            if not io_.ok:
+                return fmt_err(io_)
+            io_.value = w.as_str(io_.value)
+            return 'ok:some:' + hx(conc(io_.value))
+        if op == 'wdrop':
+            self.handles.pop(t[1], None)
+            return 'ok'
         if op == 'hdrop':
             h = self.handles.pop(t[1], None)
             if h is not None:
